@@ -55,7 +55,8 @@ def main(ctx):
             for ci, cfg in enumerate(cfgs):
                 for lo in range(0, 256, 16):
                     jobs.append({"kind": "rs_hs", "role": role, "cfg": cfg, "b1": [lo, lo + 16],
-                                 "mode": "all" if thorough else ("main" if ci == 0 else "light")})
+                                 "mode": ("all" if ci < 2 else "main") if thorough else
+                                 ("main" if ci == 0 else "light")})
         # ---- B. RawSocket limits
         bsids = SIDS + (["json.batched", "cbor.batched"] if thorough else [])
         for role in ("server", "client"):
@@ -1299,3 +1300,34 @@ def case_pair(acc, a):
             cm.closes(), sm.closes(), p.c.lost, p.s.lost), a)
     else:
         acc.inc("pair_onclose_once|%s" % fw)
+
+
+MANIFEST = {
+    "text": "Real WAMP transport protocol objects (WebSocket and RawSocket, Twisted and asyncio) built by "
+            "the real factories on in-memory TCP, with a recording ISession stub (or a real "
+            "ApplicationSession), against an independent reference peer and against the real opposite "
+            "role. RawSocket: all 65536 values of handshake octets 1-2 x reserved octets {0000,0001,0100,"
+            "ffff} x role x framework (all 8 segmentations and coalescing with the first frame for every "
+            "value with a correct magic octet and on a diagonal of the rest; everything in thorough): "
+            "attached <=> reference says valid, invalid => refused, never a positive reply without "
+            "attachment, no escaping exception; announced limits 2^9..2^24 with serialized lengths "
+            "limit-1/limit/limit+1 in both directions for every serializer (over-limit send => exception "
+            "and zero octets; over-limit frame rejected on its 4-octet header). WebSocket: all 65x65 "
+            "pairs of ordered serializer lists on a real client/server pair (+ batched alphabets in "
+            "thorough) and each side against reference peers offering / selecting well- and ill-formed "
+            "subprotocols: the first of the client's list the server supports is selected, both ends "
+            "use it with matching text/binary frames, otherwise the handshake is refused. After "
+            "attachment: all sequences of <= 3 messages over an 8-message alphabet under all single cuts, "
+            "boundary cut pairs, chunkings and octet-at-a-time (all splits <= 12 octets); 7 corruption "
+            "kinds (20 variants) at every position x 3 segmentations x failByDrop: transport closed "
+            "(1002 / 1011 / drop; abort), nothing delivered afterwards, session.onClose exactly once, "
+            "ITransport closed afterwards.",
+    "note": "Trusted: ref/rawsocket.py, ref/ws_frames.py (written from the specifications), env "
+            "transports, autobahn serializers for payload encoding. asyncio RawSocket cannot configure "
+            "its receive limit (always 2^24). Cross-framework pairs are argued by conformance of each "
+            "side to the reference peer, not executed. Post-handshake closing by an escaping exception "
+            "is counted, not flagged.",
+    "technique": "exhaustive handshake-octet sweep and bounded exhaustive exploration of negotiation "
+                 "lists, limits, message sequences x segmentations and fault positions on the real "
+                 "transports against reference peers",
+}
